@@ -176,21 +176,22 @@ Theorem epoch_signing_total :
 Proof. exact signing_eligible_total. Qed.
 Print Assumptions epoch_signing_total.
 
-(* for ANY vote list with one vote per account, under the ledger share
-   invariant, the tally's share subtraction never underflows and the voted
-   stake never exceeds the total voting stake *)
+(* for ANY vote list with one vote per account and ARBITRARY uint8 vote values (castVote
+   accepts any value, the tally keeps one entry per value), under the ledger share
+   invariant, the tally's share subtraction never underflows and the voted stake (summed
+   over all 256 possible values) never exceeds the total voting stake *)
 Theorem tally_never_exceeds_total :
   forall validators delegs votes,
-    NoDup (map fst votes) -> ledger_inv validators delegs ->
-    exists y n a, tally_results validators delegs votes = Ok (y, n, a) /\
-                  y + n + a <= total_voting_stake validators.
+    votes_ok votes -> NoDup (map fst votes) -> ledger_inv validators delegs ->
+    exists rs, tally_results validators delegs votes = Ok rs /\
+               sh_sum rs <= total_voting_stake validators.
 Proof. exact tally_never_exceeds_total_l. Qed.
 Print Assumptions tally_never_exceeds_total.
 
 (* closing a proposal is fatal EXACTLY when every validator entity has zero active escrow *)
 Theorem tally_fatal_exactly_when_no_voting_stake :
   forall validators delegs votes threshold,
-    NoDup (map fst votes) -> ledger_inv validators delegs ->
+    votes_ok votes -> NoDup (map fst votes) -> ledger_inv validators delegs ->
     (tally validators delegs votes threshold = Fatal <->
      Forall (fun v => snd (fst v) = 0) validators).
 Proof. exact tally_fatal_iff_l. Qed.
@@ -199,6 +200,13 @@ Print Assumptions tally_fatal_exactly_when_no_voting_stake.
 (* the share invariant is necessary: without it the tally's internal error is reachable *)
 Theorem tally_needs_share_invariant :
   exists validators delegs votes threshold,
-    total_voting_stake validators <> 0 /\ tally validators delegs votes threshold = Fatal.
+    votes_ok votes /\ total_voting_stake validators <> 0 /\
+    tally validators delegs votes threshold = Fatal.
 Proof. exact tally_needs_invariant. Qed.
 Print Assumptions tally_needs_share_invariant.
+
+(* the tally's StakeForShares never fails: it is the total function used by the model *)
+Theorem stake_for_shares_total :
+  forall bal ts shares, stake_for_shares bal ts shares = Ok (stake_pure bal ts shares).
+Proof. exact stake_for_shares_pure. Qed.
+Print Assumptions stake_for_shares_total.
